@@ -1863,43 +1863,55 @@ class VM:
         """Create a bound string method."""
         size = len(s)
 
+        # argument conversions: an object is first reduced by ToPrimitive
+        def to_str(value):
+            if isinstance(value, JSObject):
+                value = self._to_primitive(value, "string")
+            return to_string(value)
+
+        def to_num(value):
+            return self._to_number(value)
+
+        def to_int(value):
+            return to_integer_or_infinity(self._to_number(value))
+
         def position(args, i, default):
             """args[i] as a position: ToIntegerOrInfinity clamped to [0, size];
             `default` when the argument is missing or undefined."""
             if i >= len(args) or args[i] is UNDEFINED:
                 return default
-            n = to_integer_or_infinity(args[i])
+            n = to_int(args[i])
             return 0 if n < 0 else size if n > size else n
 
         def relative(args, i, default):
             """Like position(), but a negative value counts from the end."""
             if i >= len(args) or args[i] is UNDEFINED:
                 return default
-            n = to_integer_or_infinity(args[i])
+            n = to_int(args[i])
             return max(size + n, 0) if n < 0 else min(n, size)
 
         def charAt(*args):
-            idx = to_integer_or_infinity(args[0]) if args else 0
+            idx = to_int(args[0]) if args else 0
             if 0 <= idx < size:
                 return s[idx]
             return ""
 
         def charCodeAt(*args):
-            idx = to_integer_or_infinity(args[0]) if args else 0
+            idx = to_int(args[0]) if args else 0
             if 0 <= idx < size:
                 return ord(s[idx])
             return float("nan")
 
         def indexOf(*args):
-            search = to_string(args[0]) if args else "undefined"
+            search = to_str(args[0]) if args else "undefined"
             return s.find(search, position(args, 1, 0))
 
         def lastIndexOf(*args):
-            search = to_string(args[0]) if args else "undefined"
+            search = to_str(args[0]) if args else "undefined"
             if len(search) > size:
                 return -1
             # the position is converted with ToNumber first: NaN means "from the end"
-            num = to_number(args[1]) if len(args) > 1 else float("nan")
+            num = to_num(args[1]) if len(args) > 1 else float("nan")
             pos = size if math.isnan(num) else to_integer_or_infinity(num)
             start = min(max(pos, 0), size - len(search))
             return s.rfind(search, 0, start + len(search))
@@ -1921,7 +1933,7 @@ class VM:
             # limit is ToUint32 (so -1 means 2**32 - 1); undefined means no limit
             limit = -1
             if len(args) > 1 and args[1] is not UNDEFINED:
-                limit = self._to_uint32(args[1])
+                limit = self._to_uint32(to_num(args[1]))
 
             if sep is UNDEFINED:
                 parts = [s]
@@ -1961,10 +1973,10 @@ class VM:
                     parts.append(s[last_end:])
                 except RegexTimeoutError:
                     raise TimeLimitError("Regex execution timeout")
-            elif to_string(sep) == "":
+            elif to_str(sep) == "":
                 parts = list(s)
             else:
-                parts = s.split(to_string(sep))
+                parts = s.split(to_str(sep))
 
             if limit >= 0:
                 parts = parts[:limit]
@@ -2013,30 +2025,30 @@ class VM:
         def concat(*args):
             result = s
             for arg in args:
-                result += to_string(arg)
+                result += to_str(arg)
             return result
 
         def repeat(*args):
-            count = to_integer_or_infinity(args[0]) if args else 0
+            count = to_int(args[0]) if args else 0
             if count < 0 or count == math.inf:
                 raise JSRangeError("Invalid count value")
             return s * count
 
         def startsWith(*args):
-            search = to_string(args[0]) if args else "undefined"
+            search = to_str(args[0]) if args else "undefined"
             return s.startswith(search, position(args, 1, 0))
 
         def endsWith(*args):
-            search = to_string(args[0]) if args else "undefined"
+            search = to_str(args[0]) if args else "undefined"
             return s.endswith(search, 0, position(args, 1, size))
 
         def includes(*args):
-            search = to_string(args[0]) if args else "undefined"
+            search = to_str(args[0]) if args else "undefined"
             return s.find(search, position(args, 1, 0)) != -1
 
         def replace(*args):
             pattern = args[0] if args else UNDEFINED
-            replacement = to_string(args[1]) if len(args) > 1 else "undefined"
+            replacement = to_str(args[1]) if len(args) > 1 else "undefined"
 
             if isinstance(pattern, JSRegExp):
                 # Replace with regex using microjs.regex
@@ -2093,7 +2105,7 @@ class VM:
                     raise TimeLimitError("Regex execution timeout")
             else:
                 # String replace - only replace first occurrence
-                search = to_string(pattern)
+                search = to_str(pattern)
                 # Find first occurrence and replace
                 idx = s.find(search)
                 if idx >= 0:
@@ -2103,7 +2115,7 @@ class VM:
 
         def replaceAll(*args):
             pattern = args[0] if args else UNDEFINED
-            replacement = to_string(args[1]) if len(args) > 1 else "undefined"
+            replacement = to_str(args[1]) if len(args) > 1 else "undefined"
 
             if isinstance(pattern, JSRegExp):
                 # replaceAll with regex requires global flag
@@ -2112,7 +2124,7 @@ class VM:
                 return replace(pattern, replacement)
             else:
                 # String replaceAll - replace all occurrences
-                search = to_string(pattern)
+                search = to_str(pattern)
                 parts = []
                 end = 0
                 idx = s.find(search)
@@ -2143,7 +2155,7 @@ class VM:
                     poll_callback = (
                         lambda: time.monotonic() - self.start_time > self.time_limit
                     )
-                regex_internal = InternalRegExp(to_string(pattern), "", poll_callback)
+                regex_internal = InternalRegExp(to_str(pattern), "", poll_callback)
                 is_global = False
 
             try:
@@ -2209,7 +2221,7 @@ class VM:
                     poll_callback = (
                         lambda: time.monotonic() - self.start_time > self.time_limit
                     )
-                regex_internal = InternalRegExp(to_string(pattern), "", poll_callback)
+                regex_internal = InternalRegExp(to_str(pattern), "", poll_callback)
 
             try:
                 vm_regex = regex_internal._create_vm()
